@@ -109,6 +109,7 @@ func checkC16(c *Ctx) {
 	c.listenersReachable()
 	// teardown removes the subscriptions the connection registered: insert and remove agree on where a filter ends
 	c.endOfLevelsSignal()
+	c.lookupsConsultTheTree()
 	c.condLocksExclusive()
 }
 
